@@ -25,8 +25,8 @@ CHECKS = {
    design="5/C20"),
 
  "C11": dict(
-   text="Bounded model checking of the real commonerrors constructors and (de)serialisation: for each of the 30 kinds, messages of 0..1 (thorough 2) fully symbolic bytes optionally followed by another kind's name, constructor chains of depth 1..2 (3), cancellation/deadline causes (plain and pre-converted), joins of 1..2 (3) errors: z3 decides that Any/errors.Is recognise the kind, that a context cause is never reclassified, that Deserialise(Serialise(e)) keeps the kind(s) and -- outside the recorded known-finding region (nested %w target) -- the reason up to whitespace around colons.",
-   note="fmt.Errorf/Sprintf and errors.Is/As are engine models that build the same *fmt.wrapError structures and call the interpreted Is/Unwrap/Error methods. The filesystem, I/O and process error converters are not covered by this check.",
+   text="Bounded model checking of the real commonerrors constructors and (de)serialisation: for each of the 30 kinds, messages of 0..1 (thorough 2) fully symbolic bytes optionally followed by another kind's name, constructor chains of depth 1..2 (3), cancellation/deadline causes (plain and pre-converted), joins of 1..2 (3) errors, and the filesystem error converter on 23 backend conditions (plain and wrapped): z3 decides that Any/errors.Is recognise the kind, that a context cause is never reclassified, that Deserialise(Serialise(e)) keeps the kind(s) and -- outside the recorded known-finding region (nested %w target) -- the reason up to whitespace around colons.",
+   note="fmt.Errorf/Sprintf and errors.Is/As are engine models that build the same *fmt.wrapError structures and call the interpreted Is/Unwrap/Error methods. The filesystem converter is covered here (one stable kind per backend condition, idempotent), the I/O converter by C09; the process error converter is not covered.",
    technique="symbolic execution of go/ssa + SMT (QF_BV) over symbolic strings, native replay",
    design="5/C11"),
  "C14": dict(
